@@ -467,7 +467,8 @@ class RuntimeContext:
     ):
         # err = Error(e)
         self.errors.append(e)
-        if force_raise or not self.options.collect_errors:
+        if force_raise or self.force_error or not self.options.collect_errors:
+            # (force_error: attribute / item assignments have no later point where collected errors are raised)
             raise e
 
         if (
